@@ -113,4 +113,9 @@ def transformDataset {R T : Type} (nbrs : R → Option (Nat → List Nat)) (nrow
     (ds : R × T) : R × List (Option Nat) :=
   (ds.1, dbscan (nbrs ds.1) mp (nrows ds.1))
 
+/-- the neighbourhood of the definition: positions `j < n` with `dist i j < tol`, in dataset order
+(what a linear scan with a strict comparison returns for row `i`; there is no row `i ≥ n`) -/
+def rangeQuery {α : Type} [LT α] [DecidableLT α] (dist : Nat → Nat → α) (tol : α) (n i : Nat) : List Nat :=
+  if i < n then (List.range n).filter fun j => decide (dist i j < tol) else []
+
 end LinfaSpec.Dbscan
